@@ -4822,9 +4822,9 @@ let tbl_shrink_target t min_cap =
 let tbl_can_shrink t min_cap =
   Nat.ltb (tbl_shrink_target t min_cap) t.t_cap
 
-(** val w_shrink : bool -> bool mW **)
+(** val w_shrink_core : bool -> bool mW **)
 
-let w_shrink stop0 =
+let w_shrink_core stop0 =
   bind get (fun s ->
     let n0 = length s.w_tables in
     bind
@@ -4876,6 +4876,11 @@ let w_shrink stop0 =
             else (||) (tbl_can_shrink t s0.w_cfg.cf_caprel)
                    ((&&) (negb t.t_free) (Nat.eqb t.t_len O)))
             (skipn (S last) s0.w_tables)))))
+
+(** val w_shrink : bool -> bool mW **)
+
+let w_shrink stop0 =
+  bind check_locked (fun _ -> w_shrink_core stop0)
 
 (** val getQ : nat -> qobj mW **)
 
